@@ -27,27 +27,32 @@ type frame struct{ start, end int }
 // refParse returns the maximal prefix of well-formed records of img and why it stopped:
 // "clean" (img ends exactly after the last record) or the defect of the next record.
 func refParse(img []byte) (frames []frame, stop string) {
-	p := 0
+	frames, stop, _ = refParseAt(img)
+	return
+}
+
+// refParseAt also returns the offset at which parsing stopped.
+func refParseAt(img []byte) (frames []frame, stop string, p int) {
 	for {
 		if p == len(img) {
-			return frames, "clean"
+			return frames, "clean", p
 		}
 		if len(img)-p < 8 {
-			return frames, "short-header"
+			return frames, "short-header", p
 		}
 		crc := binary.BigEndian.Uint32(img[p:])
 		n := binary.BigEndian.Uint32(img[p+4:])
 		if n == 0 {
-			return frames, "empty-record" // every record carries a time stamp and a message
+			return frames, "empty-record", p // every record carries a time stamp and a message
 		}
 		if n > maxMsgSizeBytes {
-			return frames, "length-over-limit"
+			return frames, "length-over-limit", p
 		}
 		if uint64(len(img)-p-8) < uint64(n) {
-			return frames, "crosses-eof"
+			return frames, "crosses-eof", p
 		}
 		if crc32.Checksum(img[p+8:p+8+int(n)], castagnoli) != crc {
-			return frames, "crc-mismatch"
+			return frames, "crc-mismatch", p
 		}
 		frames = append(frames, frame{p, p + 8 + int(n)})
 		p += 8 + int(n)
@@ -96,20 +101,55 @@ func newLogModel(where string, img []byte, frames []frame, msgs []tmsg) *logMode
 	return lm
 }
 
-// expect computes what a correct reader returns for the (possibly damaged) image m: the
-// records of the maximal well-formed prefix, as indices of written records. oos is set when
-// that prefix ends at a well-formed record that was never written (a corruption that
-// preserves the CRC: out of scope).
-func (lm *logModel) expect(m []byte) (exp []int, stop string, oos bool) {
-	frames, stop := refParse(m)
+// noOpt / oosOpt are values of expectation.opt.
+const (
+	noOpt  = -1
+	oosOpt = -2
+)
+
+// expectation is what a correct reader returns for a (possibly damaged) image: the records
+// of the maximal well-formed prefix (exp, as indices of written records) and then an end
+// (io.EOF if stop is "clean", else io.EOF or a DataCorruptionError).
+//
+// oos: the prefix ends at a well-formed record that was never written (a corruption that
+// preserves the CRC: out of scope from there on).
+//
+// opt: the image ends inside a record whose missing tail consists of zero bytes only. A reader
+// that fills its buffer with what is left sees exactly the written record (buffers start
+// zeroed) and may return it: the sequence is still a prefix of the written list and the cut is
+// reported as end-of-log by the next call. opt is the written record it may return (noOpt: none;
+// oosOpt: zero padding gives a CRC-consistent record that was never written).
+type expectation struct {
+	exp  []int
+	stop string
+	oos  bool
+	opt  int
+}
+
+func (lm *logModel) expect(m []byte) expectation {
+	frames, stop, p := refParseAt(m)
+	e := expectation{stop: stop, opt: noOpt}
 	for _, f := range frames {
 		idx, ok := lm.byBytes[string(m[f.start:f.end])]
 		if !ok {
-			return exp, "crc-consistent-unwritten-record", true
+			e.stop, e.oos = "crc-consistent-unwritten-record", true
+			return e
 		}
-		exp = append(exp, idx)
+		e.exp = append(e.exp, idx)
 	}
-	return exp, stop, false
+	if stop == "crosses-eof" {
+		n := int(binary.BigEndian.Uint32(m[p+4:]))
+		padded := make([]byte, 8+n)
+		copy(padded, m[p:])
+		if crc32.Checksum(padded[8:], castagnoli) == binary.BigEndian.Uint32(padded) {
+			if idx, ok := lm.byBytes[string(padded)]; ok {
+				e.opt = idx
+			} else {
+				e.opt = oosOpt
+			}
+		}
+	}
+	return e
 }
 
 // ---- running the real decoder ----
@@ -197,7 +237,8 @@ func (f fault) String() string {
 type judge struct {
 	c   *core.Case
 	lm  *logModel
-	cur fault // fault being evaluated (for panic witnesses)
+	cur fault                  // fault being evaluated (for panic witnesses)
+	ctx map[string]interface{} // how the log was produced (file WAL configuration and trace), part of every witness
 }
 
 func (j *judge) witness(f fault, extra map[string]interface{}) map[string]interface{} {
@@ -212,6 +253,9 @@ func (j *judge) witness(f fault, extra map[string]interface{}) map[string]interf
 	w["written"] = list
 	if len(j.lm.img) <= 4608 {
 		w["intact_image_hex"] = fmt.Sprintf("%x", j.lm.img)
+	}
+	for k, v := range j.ctx {
+		w[k] = v
 	}
 	for k, v := range extra {
 		w[k] = v
@@ -234,7 +278,9 @@ func errClass(err error) string {
 // match compares what the decoder returned for image m with the reference expectation.
 // It returns "" if they agree, "oos" if the comparison left the scope of the property, or the violated clause.
 func (j *judge) match(m []byte, res decRes) (verdict, detail string) {
-	exp, stop, oos := j.lm.expect(m)
+	e := j.lm.expect(m)
+	exp, stop, oos := e.exp, e.stop, e.oos
+	tookOpt := false
 	for i, got := range res.msgs {
 		switch {
 		case i < len(exp):
@@ -243,6 +289,10 @@ func (j *judge) match(m []byte, res decRes) (verdict, detail string) {
 			}
 		case oos:
 			return "oos", ""
+		case i == len(exp) && e.opt == oosOpt:
+			return "oos", ""
+		case i == len(exp) && e.opt >= 0 && canonT(got.Time, got.Msg) == j.lm.canon[e.opt]:
+			tookOpt = true
 		default:
 			return "undetected:" + stop, fmt.Sprintf("the decoder returned a message (%s) for record %d, which is damaged (%s)", short(canonT(got.Time, got.Msg), 200), i, stop)
 		}
@@ -262,6 +312,9 @@ func (j *judge) match(m []byte, res decRes) (verdict, detail string) {
 	if oos {
 		return "oos", ""
 	}
+	if tookOpt {
+		j.c.Run.Count("cut_record_with_zero_tail_returned", 1)
+	}
 	return "", ""
 }
 
@@ -276,6 +329,10 @@ func (j *judge) decode(f fault, m []byte, res decRes) {
 		run.Count("decode_end:"+errClass(res.err), 1)
 	case "oos":
 		run.Count("out_of_scope_crc_preserving", 1)
+		if f.Kind == "flip:crc" || f.Kind == "flip:payload" || f.Kind == "none" {
+			// CRC-32C detects every single-bit error: the reference model itself must be wrong
+			run.Inconclusive(fmt.Sprintf("reference model: %s log, %s classified as CRC-preserving", j.lm.where, f))
+		}
 	default:
 		j.c.Violation("decode:"+j.lm.where+":"+cls+":"+v, fmt.Sprintf("%s log, %s: %s", j.lm.where, f, detail), j.witness(f, nil))
 	}
